@@ -252,6 +252,25 @@ func deliteralize(name string, src []byte, counter *int) ([]byte, int) {
 				if done {
 					return
 				}
+				// `return A && IIFE` / `return A || IIFE`: split off the short-circuit first (A is still
+				// evaluated first and exactly once); the next round handles `return IIFE`
+				if rs, isRet := st.(*ast.ReturnStmt); isRet && len(rs.Results) == 1 {
+					if be, isBin := ast.Unparen(rs.Results[0]).(*ast.BinaryExpr); isBin && (be.Op == token.LAND || be.Op == token.LOR) {
+						if _, fl2 := iifeOf(be.Y); fl2 != nil && delitEligible(fl2) {
+							a := string(src[off(be.X.Pos()):off(be.X.End())])
+							y := string(src[off(be.Y.Pos()):off(be.Y.End())])
+							var rep string
+							if be.Op == token.LAND {
+								rep = "if !(" + a + ") {\nreturn false\n}\nreturn " + y
+							} else {
+								rep = "if " + a + " {\nreturn true\n}\nreturn " + y
+							}
+							edits = append(edits, textEdit{off(st.Pos()), off(st.End()), rep})
+							done = true
+							return
+						}
+					}
+				}
 				call, fl := findHoistable(st)
 				if fl == nil {
 					continue
